@@ -133,6 +133,8 @@ structure Core (σ : Type) where
   find1 : σ → Time → Key → Bool → σ × Option (Val × Nat)
   /-- body of `erase` after the lock (and prologue) -/
   erase1 : σ → Key → σ × Bool
+  /-- does the container have `clear()` at all (utlru_cache, ut_map)? -/
+  hasClear : Bool
   clear : σ → σ
   /-- `clean_expired_values` body -/
   clean : σ → Time → σ × Nat
@@ -141,6 +143,9 @@ structure Core (σ : Type) where
   updateTtl : σ → Nat → σ
   size : σ → Nat
   capacity : σ → Nat
+  /-- the expiry instant a write made by a call at `now` with TTL argument `ttl` (ms) carries
+  (`now + ttl` in tlru, `now + m_ttl` in utlru/ut_map/ut_set, meaningless elsewhere) -/
+  dlOf : σ → Time → Nat → Time
   /-- what a lookup of `k` at `now` would report, with no effect on the state
   (the harness's sweep: `find(k, peek::yes)` / `find_with_use_count(k, true)` on the container or,
   for the TTL containers, on a replayed twin) -/
@@ -193,7 +198,7 @@ def step (s : σ) (now : Time) : Op → σ × Out
   | .eraseRange ks =>
     let r := c.eraseMany (c.pre s now) ks
     (r.1, .nat r.2)
-  | .clear => (c.clear s, .unit)
+  | .clear => (if c.hasClear then c.clear s else s, .unit)
   | .clean =>
     let r := c.clean s now
     (r.1, .nat r.2)
